@@ -191,10 +191,20 @@ def run(ctx):
                 np.random.seed(seed)
                 pyrandom.seed(seed)
                 res.hit("refit_history")
+            mon = None
+            if it % 5 == 2 and max_it >= 3:
+                stop_at = rng.choice([None, 2, 2, 3])
+                calls_ = {"n": 0}
+
+                def mon(cd_, final_, _s=stop_at, _c=calls_):
+                    _c["n"] += 1
+                    return False if (_s is not None and not final_ and _c["n"] >= _s) else True
+                res.hit("monitor_callback" + ("_stops" if stop_at else "_observes"))
+            mkw = {} if mon is None else {"monitor_distances": mon}
             if mode == "fit_fast":
-                cl, nit = model.fit_fast(data)
+                cl, nit = model.fit_fast(data, **mkw)
             else:
-                cl, nit = model.fit(data, use_parallel=(mode == "parallel"))
+                cl, nit = model.fit(data, use_parallel=(mode == "parallel"), **mkw)
         except BaseException as ex:
             if isinstance(ex, (KeyboardInterrupt, SystemExit)):
                 raise
